@@ -1,7 +1,7 @@
 (* C02 -- Parsing inverts serialization for every message shape and value. *)
 From Coq Require Import List ZArith.
 From SF Require Import Bytes Values Wire Parse Fields_proofs Damage_proofs Roundtrip_proofs
-  Roundtrip_flat Roundtrip_group.
+  Roundtrip_flat Roundtrip_group Roundtrip_nested.
 Import ListNotations.
 
 (* Values: parsing the canonical text of any populated value of any of the seven types into an
@@ -18,6 +18,39 @@ Theorem C02_norm_same_bytes :
 Proof. exact norm_to_bytes. Qed.
 Print Assumptions C02_norm_same_bytes.
 
+(* Every message shape: header, body and trailer made of key-values, components and repeating
+   groups nested to any depth (a group entry may contain groups and components, a component may
+   contain groups), any number of groups and entries, empty groups included.  Unmarshal of ToBytes
+   into a fresh template returns the message with BodyLength and CheckSum as Prepare set them,
+   every populated value in its parsed form, every unpopulated one still empty, every group with
+   all its entries in order -- under exactly the guards the decoder needs: tags are digit strings
+   and distinct over the whole template (the decoder finds fields by searching for their tag),
+   values contain no delimiter and are canonical for their type, every group entry has the shape of
+   its group's template and starts with a populated key-value (the delimiter field that splitGroup
+   splits on), and the message fits Go's int.  The splitting of group regions into entry chunks and
+   the recursion of the entry parser into its own chunk are part of what is proved. *)
+Theorem C02_message_roundtrip :
+  forall (o : oracle) (m : message) (bs mt : bytes),
+    m_bs m = VString true bs -> bs <> [] -> sohfree bs ->
+    m_mt m = VString true mt -> mt <> [] -> sohfree mt ->
+    digits (m_bs_tag m) -> digits (m_bl_tag m) -> digits (m_mt_tag m) -> digits (m_cs_tag m) ->
+    Forall (wfi o) (m_header m) -> Forall (wfi o) (m_body m) -> Forall (wfi o) (m_trailer m) ->
+    Forall (fun it => negb (is_cs_kv (m_cs_tag m) it) = true) (m_trailer m) ->
+    NoDup (all_tags_n m) ->
+    (Z.of_nat (calc_body_length m) <= int_max)%Z ->
+    unmarshal o (template_of m) (to_bytes m) = Ok (norm_msg_n (fst (prepare m))).
+Proof. exact message_roundtrip. Qed.
+Print Assumptions C02_message_roundtrip.
+
+(* the premises are satisfiable: a message with a three-entry group whose entries contain a group
+   of two, none and one entries goes through the theorem, and the parsed message has them all *)
+Theorem C02_premises_satisfiable_nested :
+  unmarshal ex_oracle (template_of exn_msg) (to_bytes exn_msg) = Ok (norm_msg_n (fst (prepare exn_msg))).
+Proof. exact nested_roundtrip_applies. Qed.
+Print Assumptions C02_premises_satisfiable_nested.
+
+(* the two earlier stages of the same result, kept because their statements are simpler to read:
+   flat messages, and messages with one level of groups *)
 (* Whole messages without repeating groups (key-values and components, nested to any depth, in
    header, body and trailer): Unmarshal of ToBytes into a fresh template returns the message with
    BodyLength and CheckSum as Prepare set them, every populated value in its parsed form and every
@@ -44,7 +77,7 @@ Print Assumptions C02_flat_message_roundtrip.
    (splitGroup) is part of what is proved.  Partial with respect to the property only in that a
    group nested inside a group entry is not covered by this theorem (the correspondence check
    exercises those shapes against the implementation). *)
-Theorem C02_group_message_roundtrip_partial :
+Theorem C02_group_message_roundtrip :
   forall (o : oracle) (m : message) (bs mt : bytes),
     m_bs m = VString true bs -> bs <> [] -> sohfree bs ->
     m_mt m = VString true mt -> mt <> [] -> sohfree mt ->
@@ -57,7 +90,7 @@ Theorem C02_group_message_roundtrip_partial :
     (Z.of_nat (calc_body_length m) <= int_max)%Z ->
     unmarshal o (template_of m) (to_bytes m) = Ok (norm_msg_g (fst (prepare m))).
 Proof. exact group_message_roundtrip. Qed.
-Print Assumptions C02_group_message_roundtrip_partial.
+Print Assumptions C02_group_message_roundtrip.
 
 (* the premises are satisfiable: concrete messages with a component, unpopulated members, a
    two-entry group and an empty group go through the theorems (Roundtrip_flat.flat_roundtrip_applies,
